@@ -541,3 +541,65 @@ package dnsmsg
 //@   ensures [C02:rdata] err == nil && !sameObj(rr.Name, msg) && !sameObj(rr.Data, msg) ==>
 //@             BE16(msg, noff-len(rr.Data)-2) == uint16(len(rr.Data)) && bytesEq(msg, noff-len(rr.Data), rr.Data, 0, len(rr.Data))
 //@             && BE16(msg, noff-len(rr.Data)-10) == uint16(rr.Type) && BE16(msg, noff-len(rr.Data)-8) == uint16(rr.Class) && BE32(msg, noff-len(rr.Data)-6) == rr.TTL
+
+// ---- name.go: text form (C11) ------------------------------------------------------------------
+
+//@ spec func printable(c byte) bool = ('a' <= c && c <= 'z') || ('A' <= c && c <= 'Z') || ('0' <= c && c <= '9') || c == '-'
+
+// The escape of the last label byte is exact for every octet (each byte of the label goes
+// through the same loop body): letters, digits and '-' verbatim, '.' and '\' backslash-escaped,
+// any other octet as backslash + three decimal digits.
+//@ func appendEscapedLabel(dst []byte, label []byte) (out []byte)
+//@   props C11 C01
+//@   requires dst == nil || !sameObj(dst, label)
+//@   modifies dst[len(dst):cap(dst)]
+//@   ensures len(out) >= len(dst) + len(label) && len(out) <= len(dst) + 4*len(label)
+//@   ensures dst != nil ==> out != nil
+//@   ensures sameObj(out, dst) || fresh(out)
+//@   ensures [C11:escape-verbatim] len(label) > 0 && printable(label[len(label)-1]) ==> out[len(out)-1] == label[len(label)-1]
+//@   ensures [C11:escape-dot] len(label) > 0 && label[len(label)-1] == '.' ==> out[len(out)-2] == '\\' && out[len(out)-1] == '.'
+//@   ensures [C11:escape-backslash] len(label) > 0 && label[len(label)-1] == '\\' ==> out[len(out)-2] == '\\' && out[len(out)-1] == '\\'
+//@   ensures [C11:escape-ddd] len(label) > 0 && !printable(label[len(label)-1]) && label[len(label)-1] != '.' && label[len(label)-1] != '\\' ==>
+//@             out[len(out)-4] == '\\' && out[len(out)-3] == '0' + label[len(label)-1]/100
+//@             && out[len(out)-2] == '0' + (label[len(label)-1]/10)%10 && out[len(out)-1] == '0' + label[len(label)-1]%10
+//@   loop 1:
+//@     modifies dst0[len(dst0):cap(dst0)]
+//@     invariant len(dst) >= len(dst0) + rangeindex + 1 && len(dst) <= len(dst0) + 4*(rangeindex + 1)
+//@     invariant dst0 != nil ==> dst != nil
+//@     invariant (sameSlice(dst, dst0, 0, len(dst)) && cap(dst) == cap(dst0)) || loopFresh(dst)
+//@     invariant rangeindex >= 0 && printable(label[rangeindex]) ==> dst[len(dst)-1] == label[rangeindex]
+//@     invariant rangeindex >= 0 && label[rangeindex] == '.' ==> dst[len(dst)-2] == '\\' && dst[len(dst)-1] == '.'
+//@     invariant rangeindex >= 0 && label[rangeindex] == '\\' ==> dst[len(dst)-2] == '\\' && dst[len(dst)-1] == '\\'
+//@     invariant rangeindex >= 0 && !printable(label[rangeindex]) && label[rangeindex] != '.' && label[rangeindex] != '\\' ==>
+//@             dst[len(dst)-4] == '\\' && dst[len(dst)-3] == '0' + label[rangeindex]/100
+//@             && dst[len(dst)-2] == '0' + (label[rangeindex]/10)%10 && dst[len(dst)-1] == '0' + label[rangeindex]%10
+
+//@ func ToReadable(n []byte) (b pool.Buffer, err error)
+//@   props C11 C01
+//@   modifies nothing
+//@   ensures [C11:root] len(n) == 0 ==> err == nil && len(b) == 1 && b[0] == '.'
+//@   ensures err != nil ==> b == nil
+//@   ensures err == nil ==> b != nil
+//@   loop 1:
+//@     modifies scanner.label, scanner.labelOff, scanner.off, scanner.err, obj(b)
+//@     invariant sameSlice(scanner.n, n, 0, len(n)) && 0 <= scanner.off && scanner.off <= len(n) && b != nil
+//@     invariant sameObj(b, loopOld(b)) || loopFresh(b)
+//@     decreases len(n) - scanner.off
+
+//@ func (b *NameBuilder) AppendLabel(s []byte) (err error)
+//@   props C11 C01
+//@   requires b != nil && !sameObj(s, b.buf[:])
+//@   modifies b.buf, b.l
+//@   ensures err == nil ==> 1 <= len(s) && len(s) <= 63 && int(b.l) == int(old(b.l)) + 1 + len(s) && int(b.l) <= 253
+//@   ensures err == nil ==> int(b.buf[int(old(b.l))]) == len(s) && forall(k, 0, len(s), b.buf[int(old(b.l))+1+k] == old(s[k]))
+//@   ensures err != nil ==> b.l == old(b.l)
+
+//@ func (b *NameBuilder) ParseReadable(s []byte) (err error)
+//@   props C11 C01 C18
+//@   requires b != nil && !sameObj(s, b.buf[:])
+//@   modifies b.buf, b.l
+//@   ensures [C11:root] (len(s) == 0 || (len(s) == 1 && s[0] == '.')) ==> err == nil && b.l == 0
+//@   loop 1:
+//@     modifies b.buf, b.l
+//@     invariant 0 <= off && int(b.l) <= 253
+//@     decreases len(s) - off
